@@ -38,3 +38,11 @@ Theorem c15_deletions_total : forall now root deleted src_deleted,
     merge_deletions now root deleted src_deleted = Ok (root', deleted', lg)
     /\ uuids_unique (children_of root') /\ is_group root' = is_group root.
 Proof. exact merge_deletions_ok. Qed.
+
+(* nothing disappears from the destination without a deletion event for it (db/MergeUnique.v) *)
+From KP Require Import MergeUnique.
+Theorem c15_disappearance_is_logged_deletion : forall now d s d' lg,
+  uuids_unique (db_children d) -> merge now d s = Ok (d', lg) ->
+  forall u, In u (tree_uuids (db_root d)) ->
+    In u (tree_uuids (db_root d')) \/ In (Ev EntryDeleted u) lg \/ In (Ev GroupDeleted u) lg.
+Proof. exact merge_conserves. Qed.
